@@ -77,3 +77,33 @@ package ice
 
 //@ enumerate C13 calls ice.(*UDPMuxDefault).clearWriteAbortState in (*UDPMuxDefault).abortWrite
 //@ enumerate C13 calls ice.(*UDPMuxDefault).clearWriteDeadlineAfterAbort in (*UDPMuxDefault).finishWrite
+
+// The netip.AddrPort I/O variant of a handle obeys the same rule: a closed handle
+// neither writes nor starts a read, and an open one goes to its own underlying connection.
+//@ func (*sharedAddrPortConn).WriteToAddrPort
+//@   props C13
+//@   requires s != nil && s.sharedPacketConn != nil
+//@   site call WriteToAddrPort#1 assert only-while-this-handle-is-open: !s.sharedPacketConn.ctx.gDone && recv == s.underlyingAddrPort && arg0 == b && arg1 == addr
+//@   ensures closed-handle-fails: old(s.sharedPacketConn.ctx.gDone) ==> result0 == 0 && result1 != nil
+
+//@ func (*sharedAddrPortConn).ReadFromAddrPort
+//@   props C13
+//@   requires s != nil && s.sharedPacketConn != nil && s.sharedPacketConn.ctx != nil
+//@   site call readFromAddrPortContext#1 assert reads-under-the-handles-context-from-its-own-connection: recv == s.underlyingAddrPort && arg1 == b && !old(s.sharedPacketConn.ctx.gDone)
+//@   ensures closed-handle-fails: old(s.sharedPacketConn.ctx.gDone) ==> result0 == 0 && result2 != nil
+
+//@ func (*sharedPacketConn).ReadFrom
+//@   props C13
+//@   requires s != nil && s.ctx != nil
+//@   site call readFromContext#1 assert reads-under-the-handles-context-from-its-own-connection: recv == s.underlying && arg1 == b && !old(s.ctx.gDone)
+//@   ensures closed-handle-fails: old(s.ctx.gDone) ==> result0 == 0 && result2 != nil
+
+// udpMuxWriteBlockedBit = 2^63, udpMuxWriteDeadlineBit = 2^62, the low 62 bits count
+// in-flight writers. finishWrite: the writer that finds the abort flag set and itself
+// the last one in flight (and only that writer) takes over clearing the deadline.
+//@ func (*UDPMuxDefault).finishWrite
+//@   props C13
+//@   opt nosafety
+//@   site call clearWriteDeadlineAfterAbort#1 assert only-the-last-writer-of-an-aborted-write-clears-the-deadline: state >= 9223372036854775808 && state % 4611686018427387904 == 1 && arg1 == writeErr
+//@   site call CompareAndSwap#1 assert last-writer-leaves-by-decrementing: arg1 == state && arg2 == state - 1 && state >= 9223372036854775808 && state % 4611686018427387904 == 1
+//@   site call CompareAndSwap#2 assert other-writers-just-leave: arg1 == state && arg2 == state - 1 && state % 4611686018427387904 >= 1 && !(state >= 9223372036854775808 && state % 4611686018427387904 == 1)
